@@ -351,11 +351,27 @@ def evalCase (spec : Bool) (ws : List String) : String :=
       | _, _ => "bad-op"
   | _ => "bad-op"
 
-/-- `JR id kind n a₁…aₙ <R case> # <impl output>` (`a` = the arguments the key's handler is expected to see): if the site is `Consistent` for this key and parameters
-(the hypothesis of `mapper_dispatch_consistent`, evaluated on the recorded engine answers), the
-implementation must have produced `root ++ u` and run handler `id` with exactly the parameters.
+/-- expected events on a `JR` line: `<nev> { R|X <id> <nargs> <hex|~>… }` -/
+def parseEvents : Nat → List String → Option (List Event × List String)
+  | 0, ws => some ([], ws)
+  | n + 1, tag :: id :: na :: ws =>
+    match id.toNat?, na.toNat? with
+    | some id, some na =>
+      let args := (ws.take na).mapM fun w => if w == "~" then some none else (parseHex w).map some
+      match args, parseEvents n (ws.drop na) with
+      | some args, some (evs, rest) =>
+        if tag == "R" then some (.ran id args :: evs, rest)
+        else if tag == "X" then some (.rejected id args :: evs, rest)
+        else none
+      | _, _ => none
+    | _, _ => none
+  | _, _ => none
+
+/-- `JR <expected events> <R case> # <impl output>`: if the site is `Consistent` for this key, these parameters and
+these expected observations (the hypothesis of `mapper_dispatch_consistent`, evaluated on the recorded engine
+answers), the implementation must have produced `root ++ u` and made the handlers observe exactly them.
 Answers `1 c` (consistent, implementation agrees), `1 n` (not consistent: nothing claimed), `0 c` (violation). -/
-def judgeR (id : Nat) (kind : String) (want : List (Option Bytes)) (ws : List String) (impl : String) : String :=
+def judgeR (expected : List Event) (ws : List String) (impl : String) : String :=
   match sections ws with
   | ("R" :: meth :: root :: nh :: ws) :: tree :: rest =>
     match parseHex meth, parseHex root, nh.toNat? with
@@ -381,25 +397,13 @@ def judgeR (id : Nat) (kind : String) (want : List (Option Bytes)) (ws : List St
                   | some (cur :: anc) =>
                     let pos' := params.drop kws.length
                     let ov := mkOverrides kws (params.take kws.length)
-                    let args : Option (List (Option Bytes)) :=
-                      match getEntry p'.cur rk pos'.length with
-                      | .ok (t, _) => match writeTpl t pos' ctx.helpers ov with
-                        | .ok u => match Spec.route rx (some meth) (cur.depth + 1) cur u with
-                          | (true, [.ran id' a]) =>
-                            if id' == id && (if kind == "rh" then a.drop 1 == want else a == want) then some a else none
-                          | _ => none
-                        | .error _ => none
-                      | .error _ => none
-                    match args with
-                    | none => "1 n"
-                    | some args =>
-                      if Consistent rx (some meth) ctx ov p' cur anc rk pos' id args then
-                        match mapUrl ctx p key params with
-                        | .ok full =>
-                          let expect := "ok:" ++ toHex full ++ " " ++ evsStr [.ran id args]
-                          if impl == expect then "1 c" else "0 c"
-                        | .error _ => "0 c"
-                      else "1 n"
+                    if Consistent rx (some meth) ctx ov p' cur anc rk pos' expected then
+                      match mapUrl ctx p key params with
+                      | .ok full =>
+                        let expect := "ok:" ++ toHex full ++ " " ++ evsStr expected
+                        if impl == expect then "1 c" else "0 c"
+                      | .error _ => "0 c"
+                    else "1 n"
                   | _ => "1 n"
               | .error _ => "1 n"
         | _, _, _, _, _, _ => "bad-op"
@@ -411,16 +415,16 @@ def step (_ : Unit) (line : String) : Unit × String :=
   let ws := words line
   let r : String :=
     match ws with
-    | "JR" :: id :: kind :: n :: rest =>
-      match id.toNat?, n.toNat? with
-      | some id, some n =>
-        let rest' := rest.drop n
-        let caseWs := rest'.takeWhile (· != "#")
-        let impl := " ".intercalate ((rest'.dropWhile (· != "#")).drop 1)
-        match (rest.take n).mapM parseHex with
-        | some want => judgeR id kind (want.map some) caseWs impl
+    | "JR" :: n :: rest =>
+      match n.toNat? with
+      | some n =>
+        match parseEvents n rest with
+        | some (expected, rest') =>
+          let caseWs := rest'.takeWhile (· != "#")
+          let impl := " ".intercalate ((rest'.dropWhile (· != "#")).drop 1)
+          judgeR expected caseWs impl
         | none => "bad-op"
-      | _, _ => "bad-op"
+      | none => "bad-op"
     | "J" :: rest =>
       let caseWs := rest.takeWhile (· != "#")
       let impl := " ".intercalate ((rest.dropWhile (· != "#")).drop 1)
